@@ -25,7 +25,7 @@ def run_one(pid, patch, tier, only=None):
         p = subprocess.run(["patch", "-p1", "-s", "-d", d, "-i", patch], capture_output=True, text=True)
         if p.returncode != 0:
             return "PATCH-FAILED", p.stdout + p.stderr
-        env = dict(os.environ, VERIF_REPO=d, VERIF_WORK=os.path.join(d, "work"))
+        env = dict(os.environ, VERIF_REPO=d, VERIF_WORK=os.path.join(d, "work"), VERIF_NO_REPLAY="1")
         cmd = [os.path.join(HERE, "check"), pid, "--tier", tier, "--no-evidence"]
         if only:
             cmd += ["--only", only]
